@@ -82,8 +82,13 @@ def Tx.apply (r : Ring) : Tx → Option Ring
     (modifyLast (fun k => { k with data := 0 }) s r.keys).map fun ks => { r with keys := ks }
   | .setKeys ks c => some ⟨ks, c⟩
 
-/-- `applyPendingTX`: all transactions or none (on an error the code rolls the applied ones back;
-`ConcurrentLemmas.applyRB_restores` shows the rollback restores the ring exactly). -/
+/-- `applyPendingTX`: all transactions or none. On an error the code rolls the already applied
+transactions back in reverse order (`Rollback` restores what `Apply` checked or saved: the old
+current marker, the old state, the data backup, the old key list; `txAddKey` drops the last key).
+The model takes the result of that – the pulled ring, unchanged – as the handle's snapshot after a
+failed operation; that this is what the real handle holds is tied by trace validation (the next
+operation of the same handle is *prepared* from that snapshot: its sequence number, expected current
+marker and expected state must coincide with the model's). -/
 def applyAll : List Tx → Ring → Option Ring
   | [], r => some r
   | t :: ts, r => (t.apply r).bind (applyAll ts)
